@@ -68,7 +68,8 @@ def sh(cmd, cwd=None, env=None, timeout=None, inp=None):
     e = dict(os.environ)
     if env:
         e.update(env)
-    p = subprocess.run(cmd, cwd=cwd, env=e, input=inp, capture_output=True, timeout=timeout)
+    kw = dict(input=inp) if inp is not None else dict(stdin=subprocess.DEVNULL)
+    p = subprocess.run(cmd, cwd=cwd, env=e, capture_output=True, timeout=timeout, **kw)
     return p.returncode, p.stdout.decode(errors="replace"), p.stderr.decode(errors="replace")
 
 def lake_build(targets):
@@ -109,6 +110,10 @@ def harness_build(profile="tie", serde=True, target_dir=None):
             rc, out, err = sh(cmd, cwd=hd, env=env, timeout=3600)
             if rc == 0:
                 break
+            try:
+                open(os.path.join(OUT, f"cargo-fail-{os.getpid()}-{attempt}.log"), "w").write(out + err)
+            except OSError:
+                pass
             # build scripts of dependencies occasionally fail spuriously when several cargo builds run at once
             time.sleep(2 + attempt)
     pdir = "debug" if profile == "dev" else profile
